@@ -444,3 +444,262 @@ Proof.
     rewrite (rtpg_tail groups [("format_type", PInt 1); ("implicit_transition_time", itt)] f ρ0) end;
     [reflexivity|exact Hall|lia|reflexivity|reflexivity].
 Qed.
+
+(* ---------------------------------------------------------------- REPORT PRIORITY (descriptors that carry their own length) *)
+Definition RPRI := "scsi_cdb_report_priority.ReportPriority.unmarshall_datain".
+Notation PF_rpri := PF_scsi_cdb_report_priority_ReportPriority_unmarshall_datain.
+Definition T_rpri := T_scsi_cdb_report_priority__ReportPriority___data_bits.
+
+Record pdesc := mkPd { pd_fixed : bytes; pd_tid : bytes }.
+Definition pd_fields (d : pdesc) : list (string * pv) := dict_of_decoded (decode_total (pd_fixed d) T_rpri).
+(* a conformant priority descriptor: 8 fixed bytes, then a TransportID whose length is the ADDITIONAL LENGTH field *)
+Definition pd_ok (d : pdesc) : Prop :=
+  length (pd_fixed d) = 8 /\ lookup "adlen" (pd_fields d) = Some (PInt (Z.of_nat (length (pd_tid d)))).
+Definition pd_bytes (d : pdesc) : bytes := (pd_fixed d ++ pd_tid d)%list.
+Definition pd_dict (d : pdesc) : pv := PDict (pd_fields d ++ [("transport_id", PBytes (pd_tid d))])%list.
+
+Lemma rpri_lookup : lookup RPRI py_program = Some PF_rpri.
+Proof. vm_compute. reflexivity. Qed.
+Lemma rpri_table : lookup "scsi_cdb_report_priority.ReportPriority._data_bits" all_tables = Some T_rpri.
+Proof. vm_compute. reflexivity. Qed.
+Lemma rpri_wf : masks_nonzero T_rpri = true /\ names_distinct (map fst T_rpri) = true /\ fields_within 8 T_rpri = true /\
+                existsb (String.eqb "transport_id") (map fst T_rpri) = false.
+Proof. vm_compute. repeat split; reflexivity. Qed.
+Lemma pd_fields_names d : map fst (pd_fields d) = map fst T_rpri.
+Proof. unfold pd_fields, dict_of_decoded. rewrite map_map. cbn [fst]. apply decode_total_names, rpri_wf. Qed.
+
+Definition rpri_inv (descs : list pdesc) (ds : list pdesc) (ρ : env) : Prop :=
+  exists done, descs = (done ++ ds)%list /\ Forall pd_ok ds /\
+    lookup "_data" ρ = Some (PBytes (concat (map pd_bytes ds))) /\
+    lookup "_descriptors" ρ = Some (PList (map pd_dict done)) /\
+    lookup "result" ρ = Some (PDict []).
+
+Lemma rpri_iter descs call again d ds ρ : rpri_inv descs (d :: ds) ρ ->
+  exists ρ', exec_block all_tables call again (while_body PF_rpri 3) ρ = ONorm ρ' /\ rpri_inv descs ds ρ'.
+Proof.
+  intros (done & Hsplit & Hall & Hdata & Hacc & Hres). inversion Hall as [|? ? Hd Hall']; subst. pose proof Hd as (Hf & Hlen).
+  cbn [while_body fn_body nth PF_rpri].
+  step. step. rewrite Hdata, rpri_table.
+  change (concat (map pd_bytes (d :: ds))) with ((pd_fixed d ++ pd_tid d) ++ concat (map pd_bytes ds))%list. rewrite <- !app_assoc.
+  rewrite decode_bits_total by apply rpri_wf. rewrite decode_total_prefix by (rewrite Hf; apply rpri_wf).
+  unfold with_var. lk. fold (pd_fields d).
+  assert (Hn : names_distinct (map fst (pd_fields d)) = true) by (rewrite pd_fields_names; apply rpri_wf).
+  rewrite (dict_update_nil _ Hn).
+  step. rewrite Hdata. cbn [index_eval]. rewrite Hlen. cbn [bin_eval as_int slice_eval opt_int].
+  change (concat (map pd_bytes (d :: ds))) with ((pd_fixed d ++ pd_tid d) ++ concat (map pd_bytes ds))%list. rewrite <- !app_assoc.
+  rewrite (py_slice_mid (pd_fixed d) (pd_tid d)) by (rewrite ?Hf; lia).
+  unfold with_var. lk. cbn [update_at set_item].
+  rewrite (dict_set_fresh (pd_fields d)) by (apply lookup_not_in; rewrite pd_fields_names; apply rpri_wf).
+  step. unfold with_var. lk. rewrite Hacc. cbn [update_at].
+  step. rewrite Hdata. cbn [index_eval]. rewrite (lookup_app_some _ _ _ _ Hlen). cbn [bin_eval as_int slice_eval opt_int].
+  change (concat (map pd_bytes (d :: ds))) with ((pd_fixed d ++ pd_tid d) ++ concat (map pd_bytes ds))%list.
+  rewrite py_slice_suffix by (rewrite app_length, Hf; lia).
+  rewrite exec_block_nil. eexists. split; [reflexivity|].
+  exists (done ++ [d])%list. repeat split; lk; try assumption.
+  - rewrite <- app_assoc. reflexivity.
+  - reflexivity.
+  - rewrite map_app. reflexivity.
+Qed.
+
+Lemma rpri_cond descs call ds ρ : rpri_inv descs ds ρ ->
+  exists v, eval call ρ (while_cond PF_rpri 3) = Ok v /\ truthy v = match ds with [] => false | _ => true end.
+Proof.
+  intros (done & Hsplit & Hall & Hdata & Hacc & Hres).
+  cbn [while_cond fn_body nth PF_rpri eval]. rewrite Hdata. cbn [len_eval].
+  eexists. split; [reflexivity|]. cbn [truthy]. destruct ds as [|d ds]; [reflexivity|].
+  inversion Hall as [|? ? (Hf & _) _]; subst.
+  change (concat (map pd_bytes (d :: ds))) with ((pd_fixed d ++ pd_tid d) ++ concat (map pd_bytes ds))%list.
+  rewrite !app_length, Hf. destruct (Z.eqb_spec (Z.of_nat (8 + length (pd_tid d) + length (concat (map pd_bytes ds)))) 0); [lia|reflexivity].
+Qed.
+
+(* REPORT PRIORITY: PRIORITY PARAMETER DATA LENGTH + n descriptors (8 bytes + a TransportID of ADDITIONAL LENGTH bytes) + anything *)
+Theorem report_priority_exact : forall (len4 : bytes) (descs : list pdesc) (trail : bytes) f,
+  length len4 = 4 -> Forall pd_ok descs ->
+  Z.of_N (ba_to_int len4) = Z.of_nat (length (concat (map pd_bytes descs))) ->
+  length descs + 2 <= f ->
+  call_fun all_tables py_program f RPRI [PBytes (len4 ++ concat (map pd_bytes descs) ++ trail)%list] =
+  Ok (PDict [("priority_descriptors", PList (map pd_dict descs))]).
+Proof.
+  intros len4 descs trail f Hl Hall Hlen Hf.
+  unfold call_fun, call_with. rewrite rpri_lookup. cbn [fn_params bind_params PF_rpri].
+  destruct f as [|f]; [lia|]. rewrite run_S, exec_if. cbn [eval truthy]. cbn [fn_body PF_rpri].
+  cstep. cstep. cstep.
+  rewrite py_slice_firstn by (rewrite Hl; lia). change (Z.to_nat 4) with 4. rewrite (firstn_len len4 4 Hl).
+  rewrite (py_slice_mid len4 (concat (map pd_bytes descs)) trail) by (rewrite ?Hl; lia || reflexivity).
+  rewrite exec_block_cons, <- run_S.
+  match goal with |- context [run _ _ (S f) _ ?ρ0] =>
+    pose proof (while_consumes all_tables py_program (while_cond PF_rpri 3) (while_body PF_rpri 3) pdesc (rpri_inv descs) 0
+                  (fun f ds ρ H => rpri_cond descs _ ds ρ H) (fun f d ds ρ _ H => rpri_iter descs _ _ d ds ρ H) descs f ρ0) as W
+  end.
+  cbn [while_cond while_body fn_body nth PF_rpri] in W.
+  destruct W as (ρ' & W & (done & Hsplit & _ & _ & Hacc & Hres)); [lia| |].
+  { exists []. repeat split; try reflexivity. exact Hall. }
+  rewrite W. clear W. rewrite app_nil_r in Hsplit. subst done.
+  step. unfold with_var. rewrite Hres, Hacc. cbn [update_at dict_update fold_left dict_set fst snd].
+  step. reflexivity.
+Qed.
+
+(* ---------------------------------------------------------------- PERSISTENT RESERVE IN / READ FULL STATUS (calls another decoder) *)
+Definition RFS := "scsi_cdb_persistentreservein.PersistentReserveInReadFullStatus.unmarshall_datain".
+Definition UTID := "scsi_cdb_persistentreservein.PersistentReserveInReadFullStatus.unmarshall_transport_id".
+Notation PF_rfs := PF_scsi_cdb_persistentreservein_PersistentReserveInReadFullStatus_unmarshall_datain.
+Definition T_rfs := T_scsi_cdb_persistentreservein__PersistentReserveInReadFullStatus___full_status_desc_bits.
+
+(* what the TransportID decoder makes of a TransportID at the head of a buffer (whatever follows it, whatever fuel) *)
+Definition tid_decodes (tid : bytes) (v : pv) : Prop :=
+  forall rest f, 1 <= f -> call_with py_program (run all_tables py_program f) UTID [PBytes (tid ++ rest)%list] = Ok v.
+
+Record fsdesc := mkFs { fs_fixed : bytes; fs_tid : bytes; fs_tidv : pv }.
+Definition fs_fields (d : fsdesc) : list (string * pv) := dict_of_decoded (decode_total (fs_fixed d) T_rfs).
+(* a conformant full status descriptor: 24 fixed bytes, ADDITIONAL DESCRIPTOR LENGTH = length of the TransportID (> 0) *)
+Definition fs_ok (d : fsdesc) : Prop :=
+  length (fs_fixed d) = 24 /\ 0 < length (fs_tid d) /\
+  lookup "additional_desc_length" (fs_fields d) = Some (PInt (Z.of_nat (length (fs_tid d)))) /\
+  tid_decodes (fs_tid d) (fs_tidv d).
+Definition fs_bytes (d : fsdesc) : bytes := (fs_fixed d ++ fs_tid d)%list.
+Definition fs_dict (d : fsdesc) : pv :=
+  PDict (dict_remove (fs_fields d) "additional_desc_length" ++ [("transport_id", fs_tidv d)])%list.
+
+Lemma rfs_lookup : lookup RFS py_program = Some PF_rfs.
+Proof. vm_compute. reflexivity. Qed.
+Lemma rfs_table : lookup "scsi_cdb_persistentreservein.PersistentReserveInReadFullStatus._full_status_desc_bits" all_tables = Some T_rfs.
+Proof. vm_compute. reflexivity. Qed.
+Lemma rfs_wf : masks_nonzero T_rfs = true /\ names_distinct (map fst T_rfs) = true /\ fields_within 24 T_rfs = true /\
+               existsb (String.eqb "transport_id") (map fst T_rfs) = false.
+Proof. vm_compute. repeat split; reflexivity. Qed.
+Lemma fs_fields_names d : map fst (fs_fields d) = map fst T_rfs.
+Proof. unfold fs_fields, dict_of_decoded. rewrite map_map. cbn [fst]. apply decode_total_names, rfs_wf. Qed.
+
+Definition rfs_inv (descs : list fsdesc) (g : pv) (ds : list fsdesc) (ρ : env) : Prop :=
+  exists done, descs = (done ++ ds)%list /\ Forall fs_ok ds /\
+    lookup "data" ρ = Some (PBytes (concat (map fs_bytes ds))) /\
+    lookup "result" ρ = Some (PDict [("pr_generation", g); ("full_status", PList (map fs_dict done))]).
+
+Lemma rfs_iter descs g f d ds ρ : 1 <= f -> rfs_inv descs g (d :: ds) ρ ->
+  exists ρ', exec_block all_tables (call_with py_program (run all_tables py_program f)) (run all_tables py_program f) (while_body PF_rfs 6) ρ = ONorm ρ'
+    /\ rfs_inv descs g ds ρ'.
+Proof.
+  intros Hf (done & Hsplit & Hall & Hdata & Hres). inversion Hall as [|? ? Hd Hall']; subst. pose proof Hd as (Hfx & Hpos & Hlen & Htid).
+  cbn [while_body fn_body nth PF_rfs].
+  step. step. rewrite Hdata, rfs_table.
+  change (concat (map fs_bytes (d :: ds))) with ((fs_fixed d ++ fs_tid d) ++ concat (map fs_bytes ds))%list. rewrite <- !app_assoc.
+  rewrite decode_bits_total by apply rfs_wf. rewrite decode_total_prefix by (rewrite Hfx; apply rfs_wf).
+  unfold with_var. lk. fold (fs_fields d).
+  assert (Hn : names_distinct (map fst (fs_fields d)) = true) by (rewrite fs_fields_names; apply rfs_wf).
+  rewrite (dict_update_nil _ Hn).
+  step. rewrite Hdata. cbn [slice_eval opt_int as_int].
+  change (concat (map fs_bytes (d :: ds))) with ((fs_fixed d ++ fs_tid d) ++ concat (map fs_bytes ds))%list. rewrite <- !app_assoc.
+  rewrite py_slice_suffix by (rewrite Hfx; reflexivity).
+  step. cbn [index_eval]. rewrite Hlen.
+  step. unfold with_var. lk. rewrite Hlen.
+  rewrite exec_block_cons, exec_if. cbn [eval]. lk. cbn [cmp_eval as_int].
+  assert (Hgt : (0 <? Z.of_nat (length (fs_tid d)))%Z = true) by (apply Z.ltb_lt; lia). rewrite Hgt. cbn [truthy].
+  step. rewrite (Htid _ f Hf). unfold with_var. lk. cbn [update_at set_item].
+  rewrite (dict_set_fresh (dict_remove (fs_fields d) "additional_desc_length"))
+    by (apply lookup_not_in, remove_names_subset; rewrite fs_fields_names; apply rfs_wf).
+  step. cbn [slice_eval opt_int as_int]. rewrite py_slice_suffix by reflexivity.
+  step. unfold with_var. lk. rewrite Hres.
+  cbn [update_at index_eval lookup String.eqb Ascii.eqb Bool.eqb set_item dict_set].
+  rewrite !exec_block_nil. eexists. split; [reflexivity|].
+  exists (done ++ [d])%list. repeat split; lk; try assumption.
+  - rewrite <- app_assoc. reflexivity.
+  - reflexivity.
+  - rewrite map_app. reflexivity.
+Qed.
+
+Lemma rfs_cond descs g call ds ρ : rfs_inv descs g ds ρ ->
+  exists v, eval call ρ (while_cond PF_rfs 6) = Ok v /\ truthy v = match ds with [] => false | _ => true end.
+Proof.
+  intros (done & Hsplit & Hall & Hdata & Hres).
+  cbn [while_cond fn_body nth PF_rfs eval]. rewrite Hdata. cbn [len_eval].
+  eexists. split; [reflexivity|]. cbn [truthy]. destruct ds as [|d ds]; [reflexivity|].
+  inversion Hall as [|? ? (Hf & _) _]; subst.
+  change (concat (map fs_bytes (d :: ds))) with ((fs_fixed d ++ fs_tid d) ++ concat (map fs_bytes ds))%list.
+  rewrite !app_length, Hf. destruct (Z.eqb_spec (Z.of_nat (24 + length (fs_tid d) + length (concat (map fs_bytes ds)))) 0); [lia|reflexivity].
+Qed.
+
+(* READ FULL STATUS: PRGENERATION, ADDITIONAL LENGTH, n full status descriptors (24 bytes + TransportID), anything *)
+Theorem prin_read_full_status_exact : forall (hdr : bytes) (descs : list fsdesc) (trail : bytes) f,
+  length hdr = 8 -> Forall fs_ok descs ->
+  Z.of_N (ba_to_int (skipn 4 hdr)) = Z.of_nat (length (concat (map fs_bytes descs))) ->
+  length descs + 3 <= f ->
+  call_fun all_tables py_program f RFS [PBytes (hdr ++ concat (map fs_bytes descs) ++ trail)%list] =
+  Ok (PDict [("pr_generation", PInt (Z.of_N (ba_to_int (firstn 4 hdr)))); ("full_status", PList (map fs_dict descs))]).
+Proof.
+  intros hdr descs trail f Hh Hall Hlen Hf.
+  unfold call_fun, call_with. rewrite rfs_lookup. cbn [fn_params bind_params PF_rfs].
+  destruct f as [|f]; [lia|]. rewrite run_S, exec_if. cbn [eval truthy]. cbn [fn_body PF_rfs].
+  cstep. cstep. cstep. cstep.
+  rewrite py_slice_firstn by (rewrite Hh; lia). change (Z.to_nat 4) with 4.
+  rewrite (py_slice_tail_of_prefix hdr _ 4 8) by (rewrite ?Hh; lia || reflexivity). change (Z.to_nat 4) with 4.
+  rewrite exec_block_cons, exec_if. cbn [eval lookup String.eqb Ascii.eqb Bool.eqb cmp_eval py_eq as_int]. rewrite Hlen.
+  destruct descs as [|d ds].
+  - change (Z.of_nat (length (concat (map fs_bytes [])))) with 0%Z. change (Z.eqb 0 0) with true. cbn [truthy].
+    cstep. reflexivity.
+  - inversion Hall as [|? ? Hd Hall']; subst. pose proof Hd as (Hfx & _).
+    assert (Hnz : Z.eqb (Z.of_nat (length (concat (map fs_bytes (d :: ds))))) 0 = false).
+    { apply Z.eqb_neq. change (concat (map fs_bytes (d :: ds))) with ((fs_fixed d ++ fs_tid d) ++ concat (map fs_bytes ds))%list.
+      rewrite !app_length, Hfx. lia. }
+    rewrite Hnz. cbn [truthy]. rewrite exec_block_nil.
+    cstep.
+    rewrite (py_slice_mid hdr (concat (map fs_bytes (d :: ds))) trail) by (rewrite ?Hh; lia || reflexivity).
+    rewrite exec_block_cons, <- run_S.
+    match goal with |- context [run _ _ (S f) _ ?ρ0] =>
+      pose proof (while_consumes all_tables py_program (while_cond PF_rfs 6) (while_body PF_rfs 6) fsdesc
+                    (rfs_inv (d :: ds) (PInt (Z.of_N (ba_to_int (firstn 4 hdr))))) 1
+                    (fun f ds ρ H => rfs_cond _ _ _ ds ρ H) (fun f d ds ρ Hm H => rfs_iter _ _ f d ds ρ Hm H) (d :: ds) f ρ0) as W
+    end.
+    cbn [while_cond while_body fn_body nth PF_rfs] in W.
+    destruct W as (ρ' & W & (done & Hsplit & _ & _ & Hres)); [change (length (d :: ds)) with (S (length ds)) in *; lia| |].
+    { exists []. repeat split; try reflexivity. exact Hall. }
+    rewrite W. clear W. rewrite app_nil_r in Hsplit. subst done.
+    step. rewrite Hres. reflexivity.
+Qed.
+
+(* the TransportID decoder on the 24-byte TransportIDs: Fibre Channel (protocol 0h: N_PORT NAME at bytes 8-15) and
+   SAS (protocol 6h: SAS ADDRESS at bytes 4-11), whatever follows them in the buffer *)
+Notation PF_utid := PF_scsi_cdb_persistentreservein_PersistentReserveInReadFullStatus_unmarshall_transport_id.
+Definition T_tid := T_scsi_cdb_persistentreservein__PersistentReserveInReadFullStatus___transport_id_bits.
+Definition tid_fields (tid : bytes) : list (string * pv) := dict_of_decoded (decode_total tid T_tid).
+Lemma utid_lookup : lookup UTID py_program = Some PF_utid.
+Proof. vm_compute. reflexivity. Qed.
+Lemma utid_table : lookup "scsi_cdb_persistentreservein.PersistentReserveInReadFullStatus._transport_id_bits" all_tables = Some T_tid.
+Proof. vm_compute. reflexivity. Qed.
+Lemma utid_wf : masks_nonzero T_tid = true /\ names_distinct (map fst T_tid) = true /\ fields_within 24 T_tid = true /\
+                existsb (String.eqb "n_port_name") (map fst T_tid) = false /\ existsb (String.eqb "sas_address") (map fst T_tid) = false.
+Proof. vm_compute. repeat split; reflexivity. Qed.
+Lemma tid_fields_names t : map fst (tid_fields t) = map fst T_tid.
+Proof. unfold tid_fields, dict_of_decoded. rewrite map_map. cbn [fst]. apply decode_total_names, utid_wf. Qed.
+
+Lemma tid_decodes_fc (tid : bytes) : length tid = 24 -> lookup "protocol_id" (tid_fields tid) = Some (PInt 0) ->
+  tid_decodes tid (PDict (tid_fields tid ++ [("n_port_name", PBytes (firstn 8 (skipn 8 tid)))])%list).
+Proof.
+  intros Hl Hp rest f Hf. unfold call_with. rewrite utid_lookup. cbn [fn_params bind_params PF_utid].
+  destruct f as [|f]; [lia|]. rewrite run_S, exec_if. cbn [eval truthy]. cbn [fn_body PF_utid].
+  cstep. cstep. rewrite utid_table. rewrite decode_bits_total by apply utid_wf. rewrite decode_total_prefix by (rewrite Hl; apply utid_wf).
+  fold (tid_fields tid). rewrite dict_update_nil by (rewrite tid_fields_names; apply utid_wf).
+  cstep. rewrite Hp.
+  rewrite exec_block_cons, exec_if. cbn [eval lookup String.eqb Ascii.eqb Bool.eqb cmp_eval py_eq as_int]. change (Z.eqb 0 0) with true. cbn [truthy].
+  cstep. rewrite (dict_set_fresh (tid_fields tid)) by (apply lookup_not_in; rewrite tid_fields_names; apply utid_wf).
+  rewrite exec_block_nil. cstep.
+  replace (py_slice (tid ++ rest)%list (Some 8%Z) (Some 16%Z)) with (firstn 8 (skipn 8 tid)); [reflexivity|].
+  unfold py_slice. rewrite !clip_in by (rewrite app_length, Hl; lia). change (Z.to_nat 16 - Z.to_nat 8) with 8. change (Z.to_nat 8) with 8.
+  rewrite skipn_app, firstn_app, skipn_length, Hl. change (8 - (24 - 8)) with 0. cbn [firstn]. now rewrite app_nil_r.
+Qed.
+
+Lemma tid_decodes_sas (tid : bytes) : length tid = 24 -> lookup "protocol_id" (tid_fields tid) = Some (PInt 6) ->
+  tid_decodes tid (PDict (tid_fields tid ++ [("sas_address", PBytes (firstn 8 (skipn 4 tid)))])%list).
+Proof.
+  intros Hl Hp rest f Hf. unfold call_with. rewrite utid_lookup. cbn [fn_params bind_params PF_utid].
+  destruct f as [|f]; [lia|]. rewrite run_S, exec_if. cbn [eval truthy]. cbn [fn_body PF_utid].
+  cstep. cstep. rewrite utid_table. rewrite decode_bits_total by apply utid_wf. rewrite decode_total_prefix by (rewrite Hl; apply utid_wf).
+  fold (tid_fields tid). rewrite dict_update_nil by (rewrite tid_fields_names; apply utid_wf).
+  cstep. rewrite Hp.
+  do 5 (rewrite exec_block_cons, exec_if; cbn [eval lookup String.eqb Ascii.eqb Bool.eqb cmp_eval py_eq as_int];
+        match goal with |- context [Z.eqb 6 ?k] => let b := eval vm_compute in (Z.eqb 6 k) in change (Z.eqb 6 k) with b end; cbn [truthy]).
+  cstep. rewrite (dict_set_fresh (tid_fields tid)) by (apply lookup_not_in; rewrite tid_fields_names; apply utid_wf).
+  rewrite !exec_block_nil. cstep.
+  replace (py_slice (tid ++ rest)%list (Some 4%Z) (Some 12%Z)) with (firstn 8 (skipn 4 tid)); [reflexivity|].
+  unfold py_slice. rewrite !clip_in by (rewrite app_length, Hl; lia). change (Z.to_nat 12 - Z.to_nat 4) with 8. change (Z.to_nat 4) with 4.
+  rewrite skipn_app, firstn_app, skipn_length, Hl. change (8 - (24 - 4)) with 0. cbn [firstn]. now rewrite app_nil_r.
+Qed.
